@@ -351,6 +351,10 @@ class Engine:
 
         self._clock_periodic = reactivex.interval(5.0)
         self._manual_emitter = reactivex.subject.Subject()
+        # VV: emit_now() queues snapshots here; they reach _manual_emitter in the order they were generated
+        self._manual_emissions = collections.deque()
+        self._manual_emissions_lock = threading.Lock()
+        self._manual_emissions_drain_lock = threading.Lock()
 
         # VV: _manual_emitter will use whichever scheduler invokes its on_next() (i.e. manualEmissions in emit_now)
         self._detailedState = reactivex.merge(
@@ -396,13 +400,26 @@ class Engine:
         # VV: Use a thread out of the manualEmissions pool to schedule the on_next(), we don't want to block the
         # calling thread till the observers consume the emission
         what = what or {}
-        current = self.stateDictionary
-        current.update(what)
+        # VV: Snapshots must be observed in the order they were generated. The threads of the trigger pool run
+        # concurrently so a snapshot that reports a dead engine could otherwise overtake, and then be observed after,
+        # the snapshot of the restarted (alive) engine making the engine look dead again.
+        with self._manual_emissions_lock:
+            current = self.stateDictionary
+            current.update(what)
+            self._manual_emissions.append(current)
 
-        reactivex.just(current).pipe(
+        def drain(_):
+            with self._manual_emissions_drain_lock:
+                while True:
+                    with self._manual_emissions_lock:
+                        if not self._manual_emissions:
+                            break
+                        snapshot = self._manual_emissions.popleft()
+                    self._manual_emitter.on_next(snapshot)
+
+        reactivex.just(None).pipe(
             op.observe_on(Engine.triggerPoolScheduler)
-        ).subscribe(on_next=lambda x: self._manual_emitter.on_next(x),
-                    on_error=CheckState)
+        ).subscribe(on_next=drain, on_error=CheckState)
 
     def _emit_no_more_manual(self):
         self.log.debug("Asking manual emitter to terminate")
